@@ -63,6 +63,7 @@ structure Cfg.Sound (cfg : Cfg) : Prop where
   memo : cfg.memoPerScript = true
   nocache : cfg.scriptCache = false
   diff : cfg.diffCache = true
+  nomemo : cfg.treeMemo = 0
 
 section
 variable {L T K V : Type} [DecidableEq L] [DecidableEq K]
@@ -171,6 +172,13 @@ theorem parseBuffer_spec (hs : cfg.Sound) (st : State L T K V) (key : Option Str
     · exact ⟨{ gen := st.nextGen, obj := st.nextObj, lines := text, changeTime := ptime.getD st.clock },
         by simp [save, AMap.get?_set], rfl, rfl⟩
 
+/-- without a table of remembered nodes `Script.__init__` asks parso every time -/
+theorem obtainTree_eq_parseBuffer (h0 : cfg.treeMemo = 0) (st : State L T K V)
+    (key : Option String) (text : L) (ptime : Option Nat) :
+    obtainTree cfg parse st key text ptime = parseBuffer cfg parse st key text ptime := by
+  unfold obtainTree remembered
+  cases key <;> simp [h0]
+
 /-- `Script(text, path=key)`: invariant kept, and the item under the Script's key now carries
 exactly the text the Script was given -/
 theorem script_spec (hs : cfg.Sound) (st : State L T K V) (key : Option String) (text : L)
@@ -180,6 +188,7 @@ theorem script_spec (hs : cfg.Sound) (st : State L T K V) (key : Option String) 
   obtain ⟨hc1, ⟨it, hit, hobj, hlines⟩, hsig, hm⟩ :=
     parseBuffer_spec cfg parse compute hs st key text ptime hi.toInvCore
   unfold script
+  rw [obtainTree_eq_parseBuffer cfg parse hs.nomemo]
   generalize parseBuffer cfg parse st key text ptime = pb at hc1 hit hobj hlines hsig hm
   obtain ⟨o, st1⟩ := pb
   simp only at hc1 hit hobj hlines hsig hm ⊢
